@@ -323,10 +323,11 @@ class Engine:
         return mod
 
     def _number_loops(self, mod):
-        """Attach (qualname, ordinal) to every loop for LoopSpec lookup."""
+        """Attach a key (function qualname, loop header text) to every loop
+        for LoopSpec lookup; a repeated header gets '#2', '#3', ..."""
 
         def visit(node, qual):
-            count = [0]
+            seen = {}
 
             def walk(n):
                 for ch in ast.iter_child_nodes(n):
@@ -335,9 +336,19 @@ class Engine:
                     elif isinstance(ch, ast.ClassDef):
                         visit(ch, (qual + '.' if qual else '') + ch.name)
                     else:
-                        if isinstance(ch, (ast.For, ast.While)):
-                            ch._loop_key = (mod.name + '.' + qual, count[0])
-                            count[0] += 1
+                        if isinstance(ch, ast.For):
+                            txt = (f'for {ast.unparse(ch.target)} in '
+                                   f'{ast.unparse(ch.iter)}')
+                        elif isinstance(ch, ast.While):
+                            txt = f'while {ast.unparse(ch.test)}'
+                        else:
+                            txt = None
+                        if txt is not None:
+                            k = seen.get(txt, 0) + 1
+                            seen[txt] = k
+                            if k > 1:
+                                txt = f'{txt}#{k}'
+                            ch._loop_key = (mod.name + '.' + qual, txt)
                         walk(ch)
 
             walk(node)
@@ -428,6 +439,7 @@ class Engine:
             raise Unsupported('step budget exhausted')
         ev = lambda e: self.eval(e, env, mod, clsctx)  # noqa: E731
         t = type(s)
+        sym.LAST_LINE = (mod.name, s.lineno)
         if t is ast.Expr:
             v = s.value
             if isinstance(v, ast.Yield):
@@ -682,17 +694,19 @@ class Engine:
         """Invariant-based treatment: entry, arbitrary iteration, exit."""
         p = cur()
         key = s._loop_key
-        nm = spec.name or f'{key[0]}#loop{key[1]}'
+        nm = spec.name or f'{key[0]}[{key[1]}]'
         is_for = isinstance(s, ast.For)
         if is_for and spec.elem is None:
             raise Unsupported(f'{nm}: for-loop spec needs elem')
         if is_for:
             itv = self.eval(s.iter, env, mod, clsctx)
-            env.vars['__iter_%d' % key[1]] = itv
+            env.vars['__iter__'] = itv
         p.oblige(f'{nm}/inv-entry', self._spec_inv(spec, env), kind='inv')
         # havoc
         for var, mk in spec.havoc.items():
             val = mk(self, env, p)
+            if var.startswith('effect:'):
+                continue
             if var.startswith('ghost:'):
                 p.ghost[var[6:]] = val
             else:
@@ -923,7 +937,7 @@ class Engine:
         if t is ast.Set:
             return self.mk_set(self.eval_elts(e.elts, env, mod, clsctx))
         if t is ast.Dict:
-            d = {}
+            d = SymDict()
             for k, v in zip(e.keys, e.values):
                 if k is None:
                     for kk, vv in self.dict_items(
@@ -1001,7 +1015,7 @@ class Engine:
             return list(gen(0))
         if isinstance(e, ast.SetComp):
             return self.mk_set(list(gen(0)))
-        d = {}
+        d = SymDict()
         for k, v in gen(0):
             d = self.dict_set(d, k, v)
         return d
@@ -1104,7 +1118,7 @@ class Engine:
         except (SystemExit, KeyboardInterrupt) as ex:
             raise PyRaise(ex)
         except Exception as ex:  # noqa
-            raise PyRaise(ex)
+            raise PyRaise(ex, sym.LAST_LINE)
 
     def binop(self, op, a, b):
         a = force(a)
@@ -1333,18 +1347,14 @@ class Engine:
             except TypeError as ex:
                 raise PyRaise(ex)
             return d
-        sd = SymDict(list(d.items()))
-        sd.set(self, key, value)
-        return sd
+        raise Unsupported('symbolic key stored into a native dict')
 
     def dict_items(self, d):
         if isinstance(d, SymDict):
-            return list(d.items_)
+            return d.items()
         return list(d.items())
 
     def mk_set(self, elts):
-        if all(self.plain_hashable(x) for x in elts):
-            return set(elts)
         s = SymSet()
         for x in elts:
             s.add(self, x)
@@ -1583,7 +1593,7 @@ class Engine:
         if isinstance(it, SStr):
             raise Unsupported('iteration over symbolic string')
         if isinstance(it, SymDict):
-            return iter([k for k, _ in it.items_])
+            return iter([k for k, _ in it.items()])
         if isinstance(it, SymSet):
             return iter(list(it.elems))
         if is_sym(it):
@@ -1608,6 +1618,14 @@ class Engine:
     def _iter_getitem(self, obj, g):
         i = 0
         while True:
+            if i >= self.iter_bound and i % self.iter_bound == 0:
+                ln = self.call(self.builtins['len'], [obj], {}) \
+                    if self.hasattr(obj, '__len__') else 0
+                if isinstance(ln, SNum):
+                    cur().bounded.append(
+                        f'iteration over a symbolic node unrolled '
+                        f'{self.iter_bound} times')
+                    raise PathAbort('iteration bound')
             try:
                 v = self.call(g, [obj, i], {})
             except PyRaise as e:
@@ -1716,8 +1734,16 @@ class Engine:
                 nh(self, obj, *args, **kwargs)
         return obj
 
-    def call_function(self, f, args, kwargs):
-        h = self.overrides.get(f.qualname)
+    def call_real(self, f, args, kwargs=None):
+        """Call the real body of ``f`` even if it has a contract override
+        (used to verify a function against its own contract)."""
+        if isinstance(f, BoundMethod):
+            args = [f.self_] + list(args)
+            f = f.func
+        return self.call_function(f, list(args), kwargs or {}, bypass=True)
+
+    def call_function(self, f, args, kwargs, bypass=False):
+        h = None if bypass else self.overrides.get(f.qualname)
         if h is not None:
             return h(self, *args, **kwargs)
         env = self.bind_args(f, args, kwargs)
@@ -1811,55 +1837,139 @@ _MISSING = object()
 
 
 class SymDict:
-    """Association list used when a key cannot be hashed natively."""
+    """Dictionary of the interpreted program: insertion-ordered association
+    list with a native index for plainly hashable keys.  Keys that cannot
+    be hashed natively (symbolic values, Nodes) are found by ``==``; that is
+    dict semantics provided __hash__ is consistent with __eq__ (C12)."""
 
     def __init__(self, items=()):
-        self.items_ = [(k, v) for k, v in items]
+        self.items_ = []
+        self.index = {}
+        self.nsym = 0
+        for k, v in items:
+            self._append(k, v)
+
+    def _plain(self, k):
+        if is_sym(k) or isinstance(k, ObjVal):
+            return False
+        if isinstance(k, tuple):
+            return all(self._plain(x) for x in k)
+        return True
+
+    def _append(self, k, v):
+        ent = [k, v]
+        self.items_.append(ent)
+        if self._plain(k):
+            self.index[k] = ent
+        else:
+            self.nsym += 1
 
     def find(self, eng, key):
-        for k, _ in self.items_:
-            if eng.truth(eng.key_eq(k, key)):
-                return k
+        if self._plain(key):
+            try:
+                ent = self.index.get(key)
+            except TypeError as ex:
+                raise PyRaise(ex)
+            if ent is not None:
+                return ent[0]
+            if self.nsym == 0:
+                return _MISSING
+            for ent in self.items_:
+                if not self._plain(ent[0]) and eng.truth(
+                        eng.key_eq(ent[0], key)):
+                    return ent[0]
+            return _MISSING
+        for ent in self.items_:
+            if eng.truth(eng.key_eq(ent[0], key)):
+                return ent[0]
         return _MISSING
 
     def get_stored(self, k):
-        for kk, v in self.items_:
-            if kk is k:
-                return v
+        for ent in self.items_:
+            if ent[0] is k:
+                return ent[1]
         raise KeyError(k)
 
     def remove_stored(self, k):
-        self.items_ = [(kk, v) for kk, v in self.items_ if kk is not k]
+        for i, ent in enumerate(self.items_):
+            if ent[0] is k:
+                del self.items_[i]
+                if self._plain(k):
+                    self.index.pop(k, None)
+                else:
+                    self.nsym -= 1
+                return
+        raise KeyError(k)
 
     def set(self, eng, key, value):
         k = self.find(eng, key)
         if k is _MISSING:
-            self.items_.append((key, value))
+            self._append(key, value)
         else:
-            self.items_ = [(kk, value if kk is k else v)
-                           for kk, v in self.items_]
+            for ent in self.items_:
+                if ent[0] is k:
+                    ent[1] = value
+                    return
+
+    def items(self):
+        return [(k, v) for k, v in self.items_]
 
     def __len__(self):
         return len(self.items_)
 
+    def __repr__(self):
+        return 'SymDict(%r)' % (self.items_, )
+
 
 class SymSet:
+    """Set of the interpreted program (insertion-ordered; membership by
+    ``==`` for elements that cannot be hashed natively)."""
 
     def __init__(self):
         self.elems = []
+        self.plain = set()
+        self.nsym = 0
+
+    def _is_plain(self, x):
+        if is_sym(x) or isinstance(x, ObjVal):
+            return False
+        if isinstance(x, tuple):
+            return all(self._is_plain(y) for y in x)
+        return True
 
     def has(self, eng, x):
+        x = force(x)
+        if self._is_plain(x):
+            try:
+                if x in self.plain:
+                    return True
+            except TypeError as ex:
+                raise PyRaise(ex)
+            if self.nsym == 0:
+                return False
+            for e in self.elems:
+                if not self._is_plain(e) and eng.truth(eng.eq(e, x)):
+                    return True
+            return False
         for e in self.elems:
             if e is x or eng.truth(eng.eq(e, x)):
                 return True
         return False
 
     def add(self, eng, x):
+        x = force(x)
         if not self.has(eng, x):
             self.elems.append(x)
+            if self._is_plain(x):
+                self.plain.add(x)
+            else:
+                self.nsym += 1
 
     def __len__(self):
         return len(self.elems)
+
+    def __repr__(self):
+        return 'SymSet(%r)' % (self.elems, )
 
 
 def _hkey(fn):
